@@ -169,7 +169,7 @@ def tlc(ctx, module, cfg, workers=None, timeout=900, env=None, extra=None, tag=N
     os.makedirs(tmpd, exist_ok=True)
     cmd.append("-Djava.io.tmpdir=" + tmpd)
     cmd += ["-cp", _TLC_CP, "tlc2.TLC", "-metadir", os.path.join(d, "meta"), "-config", cfg,
-            "-workers", str(workers or "auto")]
+            "-workers", str(min(int(workers), NCPU) if workers else ("auto" if "VERIF_NCPU" not in os.environ else NCPU))]
     if simulate:
         cmd += ["-simulate", simulate]
     if depth:
